@@ -1,5 +1,6 @@
 import GPVerif.Model.BatchOps
 import GPVerif.Gen.BatchChoreo
+import GPVerif.Model.BatchPipeline
 import GPVerif.Model.Proto
 open Bcast BatchOps Choreo
 
@@ -30,6 +31,9 @@ arguments separated by `|`.  All tensors are `arange` tensors; replies list valu
   fillmask site | s | bits   the GENERATED 'fill' mask (site 0..3) on labels of shape s whose NaN pattern is `bits`
   mlhist k | events      the GENERATED IndependentModelList properties over a history (0 = read train_inputs,
                          1 = read train_targets, 100 + 10*i + m = models[i].set_train_data with m = 1 targets, 2 inputs, 3 both)
+  compose pb | db        the expression tree (Model/BatchPipeline) `((x/ℓ)·os) + noise(σ, mean(c, x))` over the GENERATED
+                         choreographies on provenance-coded arange tensors (x : (*db, 2, 2); ℓ, os, c, σ with batch pb):
+                         the batched evaluation, and whether every batch element equals the replica evaluation `evalAt`
   (scale, scalediag, lsdiv, noise, mean, sumlast run the GENERATED op lists of Gen/BatchChoreo.lean)
 -/
 
@@ -55,6 +59,23 @@ def mlEvents (k : Nat) (codes : List Nat) : List (MLEvent Nat) :=
       let m := (c - 100) % 10
       let v := i * 1000 + j + 1
       MLEvent.setData i (if m = 2 ∨ m = 3 then some v else none) (if m = 1 ∨ m = 3 then some v else none)
+
+/-- provenance-coded composition: `f a b = 100 a + b` (lengthscale), `g a b = 100 a + b` (outputscale), `h a b = 1000 a + b`
+(noise; structural zeros are 999) -/
+def composeExprs (pb db : List Nat) : Pipeline.BExpr Nat × Pipeline.BExpr Nat :=
+  let x := ar (db ++ [2, 2])
+  let ℓ := ar (pb ++ [1, 2])
+  let os := ar pb
+  let c := ar pb
+  let σ := ar (pb ++ [1])
+  let pair : Nat → Nat → Nat := fun a b => 100 * a + b
+  let μ : Pipeline.BExpr Nat := .bin Pipeline.constMeanOp (.leaf c 0) (.leaf x 2)
+  let K : Pipeline.BExpr Nat := .bin (Pipeline.scaleOp pair) (.bin (Pipeline.lsDivOp pair) (.leaf x 2) (.leaf ℓ 2)) (.leaf os 0)
+  (.bin (Pipeline.ewOp 2 fun a b => 1000 * a + b) K (.bin (Pipeline.noiseOp 999) (.leaf σ 1) μ), μ)
+
+/-- does every batch element of the batched evaluation equal the replica evaluation? -/
+def replicasAgree (e : Pipeline.BExpr Nat) (k : Nat) (t : T Nat) : Bool :=
+  (allIdx (t.shape.drop k)).all fun b => (Pipeline.elem k t b).toFlat == (e.evalAt b).toFlat && (Pipeline.elem k t b).shape == (e.evalAt b).shape
 
 def step (line : String) : String :=
   let line := line.trimAscii.toString
@@ -129,6 +150,13 @@ def step (line : String) : String :=
       match runParam Gen.BatchChoreo.constantMeanOps (ar c) [ofTorch xn] [] with | some r => showT r | none => "none"
     | "expandin", [some x, some bs] =>
       if x.length ≥ 2 ∧ (bcastR ((ofTorch x).drop 2) (ofTorch bs) = some (ofTorch bs)) then showT (expandInputs (ar x) (ofTorch bs)) else "none"
+    | "compose", [some pb, some db] =>
+      let (e, μ) := composeExprs pb db
+      match e.eval, μ.eval with
+      | some t, some m =>
+        s!"shape={showNats (toTorch t.shape)};flat={showNats t.toFlat};mshape={showNats (toTorch m.shape)};mean={showNats m.toFlat};" ++
+        s!"rep={if replicasAgree e 2 t && replicasAgree μ 1 m then 1 else 0}"
+      | _, _ => "none"
     | "norm", [some [w], some tgt] =>
       let e := if w = 0 then Gen.BatchChoreo.looNormaliser else Gen.BatchChoreo.exactNormaliser
       let n := (ofTorch tgt).headD 1
